@@ -137,6 +137,7 @@ func oracleConfig(r *rand.Rand) (sim.Config, map[uint64]*oFeeder, int) {
 func runOracle(j Job) *Result {
 	res := NewResult()
 	c12, c13 := mon.NewStats("C12"), mon.NewStats("C13")
+	c09 := mon.NewStats("C09")
 	for i := j.From; i < j.To; i++ {
 		hist := fmt.Sprintf("oracle:%d:%d", j.Seed, i)
 		r := rand.New(rand.NewSource(j.Seed*32452843 + int64(i)))
@@ -160,6 +161,9 @@ func runOracle(j Job) *Result {
 			}
 		}
 		o.noTaintClasses = i%3 == 0 // a third of the histories stay free of the two recorded memory-mutation triggers
+		m9 := mon.NewC09(hist)
+		m9.NormMem = normDigest
+		w.Monitors = append(w.Monitors, m9)
 		w.KeepSnaps = false
 		nBlocks := 50 + r.Intn(40)
 		if j.Tier == "thorough" {
@@ -205,6 +209,7 @@ func runOracle(j Job) *Result {
 		}
 		c12.Merge(o.c12)
 		c13.Merge(o.c13)
+		c09.Merge(m9.S)
 		if j.Verbose {
 			for _, st := range w.Steps {
 				fmt.Printf("  %3d h=%d %-14s ack=%v %v %s\n", st.I, st.Height, st.Kind, st.Ack, st.P, trunc80(st.Err))
@@ -213,6 +218,7 @@ func runOracle(j Job) *Result {
 	}
 	res.AddStats(c12)
 	res.AddStats(c13)
+	res.AddStats(c09)
 	return res
 }
 
